@@ -11,6 +11,7 @@ package main
 
 import (
 	"bytes"
+	"context"
 	"encoding/hex"
 	"encoding/json"
 	"fmt"
@@ -42,7 +43,10 @@ func main() {
 			"the same text from another file / line / level) against the real logger in a child process, with concurrent SetLogLevel/SetPkgLevels/UnSetPkgLevels, " +
 			"slow adapter (buffer overflow), paced or free-running writer, delays injected at hook points, Shutdown at the end or mid-run; " +
 			"non-trivial = more than one goroutine or more than 50 lines and at least one line written; distinct by recorded trace. " +
-			"lv cases: level-filter probes (global/package level × origin × severity) on an in-process logger",
+			"lv cases: level-filter probes (global/package level × origin × severity) on an in-process logger; " +
+			"at cases: AddTracer probes (global level 0–7 × package levels inactive / origin listed at trace / listed above / NOT listed × fresh, nil or already traced context; " +
+			"one line of a random severity through whatever came back, Submit); every AddTracer call of a scenario is recorded with the configuration in force and replayed through the model; " +
+			"scenarios 'mixed' and 'tracer' draw the three package-level states per origin under every global level (also through -log/-plog)",
 		Generate: generate, NewExec: newExec, Monitor: monitor,
 		DisSig: func(line, impl, model string) string {
 			return "corr:" + strings.Fields(line)[0] + ":" + firstWords(model, 3)
@@ -75,6 +79,28 @@ func genPkgs(rng *rand.Rand) map[string]int {
 	return m
 }
 
+// genPkgStates draws package levels that put every origin into one of the three states a level decision can
+// meet while package levels are active: listed at trace, listed above trace, NOT listed (the global level
+// decides again).
+func genPkgStates(rng *rand.Rand) map[string]int {
+	m := map[string]int{}
+	for _, n := range []string{"orga", "orgb", "orgc"} {
+		switch rng.Intn(3) {
+		case 0:
+			m[n] = 1
+		case 1:
+			m[n] = 2 + rng.Intn(5)
+			if rng.Intn(10) == 0 {
+				m[n] = []int{0, 7}[rng.Intn(2)]
+			}
+		}
+	}
+	if rng.Intn(2) == 0 {
+		m["zzz"] = 1 + rng.Intn(6)
+	}
+	return m
+}
+
 func genLevel(rng *rand.Rand) int {
 	switch rng.Intn(10) {
 	case 0:
@@ -93,6 +119,7 @@ func genSpec(r *hxlib.Run, rng *rand.Rand, kind string) Spec {
 	maxReps := 1
 	pTr := 0.05
 	pSleep := 0.05
+	tracerStates := false
 	switch kind {
 	case "basic":
 	case "dups":
@@ -148,6 +175,12 @@ func genSpec(r *hxlib.Run, rng *rand.Rand, kind string) Spec {
 	case "tracer":
 		pTr = 0.5
 		s.Glob = 1
+		if rng.Intn(2) == 0 {
+			// the level decision at tracer creation: every global level × the three package-level states per origin
+			s.Glob = 1 + rng.Intn(6)
+			s.Pkgs = genPkgStates(rng)
+			tracerStates = true
+		}
 	case "yield":
 		np = 2 + rng.Intn(6)
 		items = 20 + rng.Intn(150)
@@ -200,7 +233,7 @@ func genSpec(r *hxlib.Run, rng *rand.Rand, kind string) Spec {
 			s.AdapterUs, s.AdapterEv = 20+rng.Intn(100), 1+rng.Intn(4)
 		}
 	}
-	if rng.Intn(3) == 0 {
+	if rng.Intn(3) == 0 && !tracerStates {
 		s.Pkgs = genPkgs(rng)
 	}
 	if rng.Intn(6) == 0 {
@@ -381,7 +414,7 @@ func genMixed(r *hxlib.Run, rng *rand.Rand) Spec {
 	}
 	// the level in force: trace everywhere (AddTracer hands out tracers), or trace only for some origins
 	// (elsewhere AddTracer returns nil and the same call site logs plain lines)
-	switch rng.Intn(4) {
+	switch rng.Intn(6) {
 	case 0:
 		s.Glob = 2 + rng.Intn(2)
 		s.Pkgs = map[string]int{}
@@ -392,6 +425,14 @@ func genMixed(r *hxlib.Run, rng *rand.Rand) Spec {
 		}
 	case 1:
 		s.Glob = 1 + rng.Intn(2)
+	case 2, 3:
+		// the level decision at tracer creation: every global level × the three states of the package levels per
+		// origin (listed at trace: tracer; listed above: plain lines; NOT listed: the global level decides)
+		s.Glob = 1 + rng.Intn(6)
+		if rng.Intn(8) == 0 {
+			s.Glob = []int{0, 7}[rng.Intn(2)]
+		}
+		s.Pkgs = genPkgStates(rng)
 	}
 	if rng.Intn(4) == 0 {
 		s.Cap = 2 + rng.Intn(14)
@@ -565,6 +606,7 @@ func genMixed(r *hxlib.Run, rng *rand.Rand) Spec {
 		prog = append(prog, Op{Kind: "trig"})
 		s.Prods = append(s.Prods, prog)
 	}
+	addStartFlags(rng, &s) // one in three: the levels the tracer call sites meet come from -log / -plog
 	return s
 }
 
@@ -650,6 +692,71 @@ func generate(r *hxlib.Run, emit func(hxlib.Case)) {
 	if len(lv) > 0 {
 		emit(hxlib.Case{Lines: lv, Kind: "filter-probe", NonTrivial: true})
 	}
+	// (1a) AddTracer probes: the level decision at tracer creation × the three states of the package levels for
+	// the calling origin × every global level, on a fresh / nil / already-traced context
+	{
+		var at []string
+		for i, n := 0, r.Budget(2400, 24000); i < n; i++ {
+			org := rng.Intn(3)
+			glob := 1 + rng.Intn(6)
+			if rng.Intn(8) == 0 {
+				glob = []int{0, 7}[rng.Intn(2)]
+			}
+			m := map[int]int{}
+			for _, o := range []int{0, 1, 2, 9} {
+				if o != org && rng.Intn(2) == 0 {
+					m[o] = 1 + rng.Intn(6)
+				}
+			}
+			active, state := 1, ""
+			switch rng.Intn(7) {
+			case 0:
+				active, state = 0, "inactive"
+				if rng.Intn(2) == 0 {
+					m[org] = 1 + rng.Intn(6) // a stale entry: package levels were set, then unset
+				}
+			case 1, 2:
+				state = "listed-at-trace"
+				m[org] = 1
+				if rng.Intn(10) == 0 {
+					m[org] = 0
+				}
+			case 3, 4:
+				state = "listed-above-trace"
+				m[org] = 2 + rng.Intn(5)
+				if rng.Intn(10) == 0 {
+					m[org] = 7
+				}
+			default:
+				state = "not-listed"
+			}
+			var ps []string
+			for k, v := range m {
+				ps = append(ps, fmt.Sprintf("%d=%d", k, v))
+			}
+			sort.Strings(ps)
+			pk := "-"
+			if len(ps) > 0 {
+				pk = strings.Join(ps, ",")
+			}
+			mode := "fresh"
+			switch rng.Intn(12) {
+			case 0:
+				mode = "nil"
+			case 1:
+				mode = "existing"
+			}
+			r.Count("addtracer-probe:" + state + ":" + map[bool]string{true: "global-at-trace", false: "global-above-trace"}[glob <= 1] + ":" + mode)
+			at = append(at, fmt.Sprintf("at %d %d %s %d %s %d", glob, active, pk, org, mode, 1+rng.Intn(6)))
+			if len(at) == 60 {
+				emit(hxlib.Case{Lines: at, Kind: "addtracer-probe", NonTrivial: true})
+				at = nil
+			}
+		}
+		if len(at) > 0 {
+			emit(hxlib.Case{Lines: at, Kind: "addtracer-probe", NonTrivial: true})
+		}
+	}
 	// (1b) ParseLevel / Severity.Name on the real package against the regenerated tables
 	{
 		var pl []string
@@ -665,7 +772,7 @@ func generate(r *hxlib.Run, emit func(hxlib.Case)) {
 		}
 	}
 	// (2) malformed / out-of-protocol lines: the driver must reject, never default
-	emit(hxlib.Case{Lines: []string{"lv x 1 - 0 3", "lv 3 1 0=x 0 3", "w bogus", "p 0 1 enq ret", "p 0 1 line won ret", "item 0 1 3 0 p 9:1*1", "out 1:2", "frobnicate", "pl zz", "nm x", "start - - 3 0"}, Kind: "malformed"})
+	emit(hxlib.Case{Lines: []string{"lv x 1 - 0 3", "lv 3 1 0=x 0 3", "w bogus", "p 0 1 enq ret", "p 0 1 line won ret", "item 0 1 3 0 p 9:1*1", "out 1:2", "frobnicate", "pl zz", "nm x", "start - - 3 0", "at 3 1 - 0 fresh", "at 3 1 - 0 sideways 2", "at 3 1 - 0 fresh 9", "ta 7 0 0 1", "ta 0 0 0"}, Kind: "malformed"})
 	emit(hxlib.Case{Lines: []string{"w token token"}, Kind: "malformed"})
 	emit(hxlib.Case{Lines: []string{"w token unset slot W:1:3:1:10:0:0", "p 0 1 line enq won tokFull ret", "p 0 1 line enq won ret"}, Kind: "malformed"})
 	// (3) scenarios on the real logger, child process each
@@ -757,6 +864,7 @@ type item struct {
 	kind                string
 	segs                []seg
 	entries             []int
+	low                 int // lowest severity among the lines the call hands over (submission: collected entries and main line)
 }
 
 type outw struct {
@@ -818,6 +926,12 @@ func parseRun(lines []string) *runRec {
 			if len(f) > 7 && strings.HasPrefix(f[7], "e") && len(f[7]) > 1 {
 				for _, e := range strings.Split(f[7][1:], ",") {
 					it.entries = append(it.entries, atoi(e))
+				}
+			}
+			it.low = it.lvl
+			if it.kind == "t" {
+				for _, e := range it.entries {
+					it.low = min(it.low, entLevel(e))
 				}
 			}
 			rr.counts["item:"+it.kind+":sev"+f[3]]++
@@ -915,6 +1029,26 @@ func parseRun(lines []string) *runRec {
 					rr.meta[p[0]] = atoi(p[1])
 				}
 			}
+		case "ta":
+			// an AddTracer call: which state of the package levels did the decision meet?
+			if len(f) == 5 {
+				c := rr.cfgs[atoi(f[1])]
+				state := "pkg-levels-inactive"
+				if c.Active {
+					state = "origin-not-listed"
+					if v, ok := c.Pkgs[f[2]]; ok {
+						state = "origin-listed-above-trace"
+						if v <= 1 {
+							state = "origin-listed-at-trace"
+						}
+					}
+				}
+				g := "global-above-trace"
+				if c.Glob <= 1 {
+					g = "global-at-trace"
+				}
+				rr.counts["addtracer:"+state+":"+g+":"+map[string]string{"1": "live", "0": "nil"}[f[4]]]++
+			}
 		case "start":
 			if len(f) == 10 {
 				rr.start = f
@@ -946,14 +1080,19 @@ func inForce(c cfgSnap, org int) int {
 	return c.Glob
 }
 
-// bounds: how many lines of this item MUST (lo) and MAY (hi) reach the adapter.
+// bounds: how many lines of this item MUST (lo) and MAY (hi) reach the adapter. A plain call is emitted iff
+// its severity is at or above the level in force for its origin. A tracer submission hands over several lines
+// at once; "the call" is the tracer's life, from AddTracer to the return of Submit (the logger decides once, at
+// AddTracer): under a configuration that did not change meanwhile it MUST arrive if every line it carries is
+// at or above the level in force for the origin, and must NOT if one of them is below ("messages below the level
+// in force are never emitted"); if the configuration changed during its life nothing is demanded either way.
 func (rr *runRec) bounds(it item) (lo, hi int) {
 	for _, s := range it.segs {
 		if s.cfg < 0 || it.kind == "x" {
 			hi += s.n
 			continue
 		}
-		on := it.kind == "t" || it.lvl >= inForce(rr.cfgs[s.cfg], it.org)
+		on := it.low >= inForce(rr.cfgs[s.cfg], it.org)
 		if on {
 			hi += s.n
 			if s.before {
@@ -1027,6 +1166,30 @@ func (rr *runRec) verdict() string {
 			}
 		}
 	}
+	// "messages below the level in force are never emitted", line by line: a line that has the identity and form
+	// of items of its goroutine none of which may be emitted at all (every call of them was made below the level
+	// in force, under a configuration that did not change during the call)
+	for g := 0; g < rr.np; g++ {
+		byID := map[int][]int{}
+		for i, it := range rr.items[g] {
+			byID[it.item] = append(byID[it.item], i)
+		}
+		for _, o := range expanded[g] {
+			some, allowed := false, false
+			for _, i := range byID[o.item] {
+				if it := rr.items[g][i]; it.matches(o) {
+					some = true
+					if _, hi := rr.bounds(it); hi > 0 {
+						allowed = true
+						break
+					}
+				}
+			}
+			if some && !allowed {
+				return fmt.Sprintf("fail filtered g%d i%d", g, o.item)
+			}
+		}
+	}
 	for g := 0; g < rr.np; g++ {
 		pos := 0
 		got := expanded[g]
@@ -1049,11 +1212,49 @@ func (rr *runRec) verdict() string {
 	// the whole statement per goroutine: its part of the expanded output can be cut into consecutive blocks,
 	// one per item in program order, block i made of lo…hi lines of item i in the item's form
 	for g := 0; g < rr.np; g++ {
-		if v := rr.greedy(g, expanded[g]); v != "pass" && !rr.conforms(g, expanded[g]) {
-			return v
+		if v := rr.greedy(g, expanded[g]); v != "pass" {
+			if ok, stuck := rr.conforms(g, expanded[g]); !ok {
+				return rr.diagnose(g, expanded[g], v, stuck)
+			}
 		}
 	}
 	return "pass"
+}
+
+// diagnose corrects the verdict of the greedy walk where it is known to misname: A B A with B LOST arrives as
+// A A, which the walk calls a duplicate of A. A "duplicated" is kept only if the line really is emitted more
+// often than all the items that can take it allow together; otherwise the item at which every cutting gets
+// stuck is named as lost.
+func (rr *runRec) diagnose(g int, got []outw, v string, stuck *item) string {
+	f := strings.Fields(v)
+	if len(f) != 4 || f[1] != "duplicated" || stuck == nil {
+		return v
+	}
+	id := atoi(strings.TrimPrefix(f[3], "i"))
+	var cand []outw
+	for _, o := range got {
+		if o.item == id {
+			cand = append(cand, o)
+		}
+	}
+	for _, o := range cand {
+		n, allow := 0, 0
+		for _, x := range cand {
+			if x.tracer == o.tracer && eqInts(x.entries, o.entries) {
+				n++
+			}
+		}
+		for _, it := range rr.items[g] {
+			if it.matches(o) {
+				_, hi := rr.bounds(it)
+				allow += hi
+			}
+		}
+		if n > allow {
+			return v
+		}
+	}
+	return fmt.Sprintf("fail lost g%d i%d", g, stuck.item)
 }
 
 // matches: can this output line belong to the block of the item (same identity, prescribed form)?
@@ -1100,9 +1301,10 @@ func (rr *runRec) greedy(g int, got []outw) string {
 
 // conforms decides exactly whether SOME cutting into blocks exists (the greedy walk is not exact when an
 // optional or disabled item stands between two items of identical lines: A B A with B absent arrives as A A).
-func (rr *runRec) conforms(g int, got []outw) bool {
+func (rr *runRec) conforms(g int, got []outw) (bool, *item) {
 	cur := []int{0} // positions the items so far can have consumed, ascending
-	for _, it := range rr.items[g] {
+	for i := range rr.items[g] {
+		it := rr.items[g][i]
 		lo, hi := rr.bounds(it)
 		seen := map[int]bool{}
 		var next []int
@@ -1119,12 +1321,12 @@ func (rr *runRec) conforms(g int, got []outw) bool {
 			}
 		}
 		if len(next) == 0 {
-			return false
+			return false, &rr.items[g][i] // every cutting gets stuck here
 		}
 		sort.Ints(next)
 		cur = next
 	}
-	return cur[len(cur)-1] == len(got)
+	return cur[len(cur)-1] == len(got), nil
 }
 
 func monitor(c hxlib.Case, outs []string) (vs []hxlib.Violation) {
@@ -1175,6 +1377,40 @@ func monitor(c hxlib.Case, outs []string) (vs []hxlib.Violation) {
 			f := strings.Fields(v)
 			keep := c.Lines
 			vs = append(vs, hxlib.Violation{Sig: "C20:" + f[1], What: "on the recorded run of the real logger: " + v + " (" + explain(f[1]) + ")", Lines: keep, Output: []string{v}})
+		}
+	case "at":
+		// a line logged through whatever AddTracer handed out (a live tracer, or nil: a plain call), read literally:
+		// handed to the writer iff its severity >= level in force for the origin (nothing changes the levels meanwhile)
+		for i, l := range c.Lines {
+			f := strings.Fields(l)
+			if len(f) != 7 || i >= len(outs) {
+				continue
+			}
+			o := strings.Fields(outs[i])
+			if len(o) != 2 || !strings.HasPrefix(o[1], "e=") {
+				if strings.HasPrefix(outs[i], "PANIC") {
+					vs = append(vs, hxlib.Violation{Sig: "C20:panic:addtracer", What: outs[i], Lines: []string{l}, Output: []string{outs[i]}})
+				}
+				continue
+			}
+			cfg := cfgSnap{Glob: atoi(f[1]), Active: f[2] == "1", Pkgs: map[string]int{}}
+			if f[3] != "-" {
+				for _, kv := range strings.Split(f[3], ",") {
+					p := strings.Split(kv, "=")
+					cfg.Pkgs[p[0]] = atoi(p[1])
+				}
+			}
+			want := "e=0"
+			if atoi(f[6]) >= inForce(cfg, atoi(f[4])) {
+				want = "e=1"
+			}
+			if o[1] != want {
+				sig := "C20:filter:tracer:line-below-level-submitted"
+				if want == "e=1" {
+					sig = "C20:filter:tracer:enabled-line-dropped"
+				}
+				vs = append(vs, hxlib.Violation{Sig: sig, What: fmt.Sprintf("AddTracer + one line of severity %s through its result + Submit, level in force %d: got %s (t: whether AddTracer handed out a live tracer, e: whether the line was handed to the writer)", f[6], inForce(cfg, atoi(f[4])), outs[i]), Lines: []string{l}, Output: []string{outs[i]}})
+			}
 		}
 	case "lv":
 		// the filter read literally: emitted iff severity >= level in force for the origin
@@ -1252,7 +1488,7 @@ func (e *execT) Do(line string) string {
 	}
 	e.lines = append(e.lines, line)
 	switch f[0] {
-	case "scenario", "np", "cfg", "item", "out", "meta":
+	case "scenario", "np", "cfg", "item", "out", "meta", "ta":
 		// recorded facts about the real run; well-formedness is the model driver's business too
 		if f[0] == "cfg" && len(f) == 5 {
 			e.cfgs[f[1]] = true
@@ -1271,6 +1507,8 @@ func (e *execT) Do(line string) string {
 		return parseRun(e.lines).verdict()
 	case "lv":
 		return probe(f)
+	case "at":
+		return probeTracer(f)
 	case "pl": // the real ParseLevel
 		if len(f) != 2 {
 			return "bad-op"
@@ -1303,6 +1541,8 @@ func (e *execT) Do(line string) string {
 
 func (e *execT) wellFormed(f []string) bool {
 	switch f[0] {
+	case "ta":
+		return len(f) == 5 && e.cfgs[f[1]]
 	case "item":
 		if len(f) < 7 {
 			return false
@@ -1345,28 +1585,25 @@ type discard struct{}
 
 func (discard) Write(log.Message, uint64) {}
 
-func probe(f []string) string {
-	if len(f) != 6 {
-		return "bad-op"
-	}
+// probeCfg reads "<glob> <active> <pkgs> <org>" of a probe line.
+func probeCfg(f []string) (glob, act, org int, pk map[string]log.Severity, ok bool) {
 	glob, e1 := strconv.Atoi(f[1])
 	act, e2 := strconv.Atoi(f[2])
 	org, e4 := strconv.Atoi(f[4])
-	lvl, e5 := strconv.Atoi(f[5])
-	if e1 != nil || e2 != nil || e4 != nil || e5 != nil || org < 0 || org > 2 {
-		return "bad-op"
+	if e1 != nil || e2 != nil || e4 != nil || org < 0 || org > 2 {
+		return 0, 0, 0, nil, false
 	}
-	pk := map[string]log.Severity{}
+	pk = map[string]log.Severity{}
 	if f[3] != "-" {
 		for _, kv := range strings.Split(f[3], ",") {
 			p := strings.Split(kv, "=")
 			if len(p) != 2 {
-				return "bad-op"
+				return 0, 0, 0, nil, false
 			}
 			id, e := strconv.Atoi(p[0])
 			v, e6 := strconv.Atoi(p[1])
 			if e != nil || e6 != nil {
-				return "bad-op"
+				return 0, 0, 0, nil, false
 			}
 			name := "zzz"
 			if id >= 0 && id < 3 {
@@ -1375,6 +1612,59 @@ func probe(f []string) string {
 			pk[name] = log.Severity(v)
 		}
 	}
+	return glob, act, org, pk, true
+}
+
+// probeTracer: "at <glob> <active> <pkgs> <org> <mode> <lvl>" — AddTracer on the real package from the origin
+// under the given levels, on a fresh context / a nil context / a context that already carries a tracer; one line
+// of severity lvl is logged through whatever came back, then Submit. Reports whether the tracer was live and
+// whether the line was handed to the writer.
+func probeTracer(f []string) string {
+	if len(f) != 7 {
+		return "bad-op"
+	}
+	glob, act, org, pk, ok := probeCfg(f)
+	lvl, e5 := strconv.Atoi(f[6])
+	if !ok || e5 != nil || lvl < 1 || lvl > 6 {
+		return "bad-op"
+	}
+	probeStart()
+	probeMu.Lock()
+	defer probeMu.Unlock()
+	var ctx context.Context
+	switch f[5] {
+	case "fresh":
+		ctx = context.Background()
+	case "nil":
+	case "existing":
+		log.SetLogLevel(log.TraceLevel)
+		log.UnSetPkgLevels()
+		var t *log.ContextTracer
+		ctx, t = log.AddTracer(context.Background())
+		if t == nil {
+			return "no-tracer-at-trace-level"
+		}
+	default:
+		return "bad-op"
+	}
+	log.SetLogLevel(log.Severity(glob))
+	log.SetPkgLevels(pk)
+	if act == 0 {
+		log.UnSetPkgLevels()
+	}
+	probeHit = false
+	live := orgs[org].probe(ctx, lvl, "probe")
+	return fmt.Sprintf("t=%d e=%d", b2i(live), b2i(probeHit))
+}
+
+func b2i(b bool) int {
+	if b {
+		return 1
+	}
+	return 0
+}
+
+func probeStart() {
 	probeOnce.Do(func() {
 		if dn, err := os.OpenFile(os.DevNull, os.O_WRONLY, 0); err == nil {
 			so := os.Stdout
@@ -1389,6 +1679,18 @@ func probe(f []string) string {
 		})
 		_ = log.Start()
 	})
+}
+
+func probe(f []string) string {
+	if len(f) != 6 {
+		return "bad-op"
+	}
+	glob, act, org, pk, ok := probeCfg(f)
+	lvl, e5 := strconv.Atoi(f[5])
+	if !ok || e5 != nil {
+		return "bad-op"
+	}
+	probeStart()
 	probeMu.Lock()
 	defer probeMu.Unlock()
 	log.SetLogLevel(log.Severity(glob))
